@@ -190,7 +190,22 @@ Definition is_activity (e : ev) : bool :=
   | CApi q => is_write q
   end.
 
+(* the sync hook is only ever asked about an object that satisfies both selectors
+   of its rule: a finalizer holder that no longer matches gets the finalize hook
+   (or nothing, when the controller has none) *)
+Definition sync_hook_unselected (c : dcfg) (e : ev) : bool :=
+  match e_call e with
+  | CHook HSync body =>
+      let s := jget "object" (obj_map body) in
+      match rule_for c s with
+      | None => true
+      | Some rl => negb (sel_matches (rl_label_sel rl) (get_labels s) && sel_matches (rl_annot_sel rl) (annots_of s))
+      end
+  | _ => false
+  end.
+
 Definition C16_selected_only (c : dcfg) (k : dcache) (evs : list ev) : option string :=
+  if existsb (sync_hook_unselected c) evs then Some "sync-hook-called-for-unselected-object" else
   if negb (existsb is_activity evs) then None else
   match target_of c k with
   | None => Some "activity-without-cached-target"
